@@ -40,6 +40,9 @@ type wParams struct {
 	Timeout   int    `json:"timeout,omitempty"` // seconds; 0 = default 20
 	Columns   int    `json:"columns,omitempty"`
 
+	MsgFaults []wMsgFault  `json:"msgfaults,omitempty"`
+	Local     *wLocalFault `json:"local,omitempty"`
+	WireCap   int          `json:"wirecap,omitempty"` // bytes of back-pressure on the wires (0 = unbounded)
 	Faults    []wFault `json:"faults,omitempty"` // byte-level faults on the connection (wire next to the client, or the tunnel)
 	RawClient bool `json:"rawclient,omitempty"` // uploads: raw sending client built from product functions instead of the filter
 	FdLimit int   `json:"fdlimit,omitempty"` // RLIMIT_NOFILE during the execution (0 = unchanged)
@@ -49,6 +52,22 @@ type wParams struct {
 	Tree   string `json:"tree"`             // source tree recipe
 	DstPre string `json:"dstpre,omitempty"` // destination pre-population recipe
 	Seg    string `json:"seg,omitempty"`    // "", "byte", "coalesce", "cut:<c2s|s2c>:<offset>"
+}
+
+// wMsgFault is a message-level connection fault: from the k-th written chunk of a direction on, the
+// chunks are dropped silently ("silence"), or the writer gets an error ("werr").
+type wMsgFault struct {
+	Dir  string `json:"dir"`
+	K    int    `json:"k"`
+	Kind string `json:"kind"` // silence | werr
+}
+
+// wLocalFault is a local I/O failure at the k-th call of an R9 hook on one side.
+type wLocalFault struct {
+	Side string `json:"side"` // "client" | "server" (the side whose thread makes the call)
+	Hook string `json:"hook"` // fileWrite | fileRead | archiveRead | archiveWrite
+	K    int    `json:"k"`
+	Kind string `json:"kind"` // "err" (the call fails) | "shrink" (the source file is truncated on disk just before the call)
 }
 
 // wFault is one byte-level fault at an absolute offset of one direction of the connection.
@@ -346,7 +365,11 @@ type world struct {
 	srvDone     bool
 	srvErr      error
 	srvDoneAt   time.Duration
+	cliStartAt  time.Duration
+	cliDoneAt   time.Duration
+	cliDone     bool
 	uploadRes   <-chan error
+	uploadErr   string
 
 	hookErr func(name string, args ...any) error
 	// hostile-peer support (C09, C12): doctored source records instead of a scan of the source tree,
@@ -365,6 +388,9 @@ type worldResult struct {
 	SrvStdout    string
 	Term         string
 	C2S, S2C     []byte // wire next to the server
+	ClientGot    []byte // everything that reached the client (in-band and tunnel)
+	TunMsgsC2S, TunMsgsS2C int
+	TunLogC2S    []vs.Stamp
 	TunC2S, TunS2C []byte // tunnel connection next to the client (if any)
 	ClientExit   string // decoded #EXIT: message the client sent ("" if none)
 	ClientFail   string // decoded #fail:/#FAIL: message the client sent
@@ -374,6 +400,8 @@ type worldResult struct {
 	Outside      map[string]string // everything in the execution's scratch root except the destination
 	Alive        []string
 	SrvDoneAt    time.Duration
+	CliDone      bool
+	CliDoneAt    time.Duration
 	End          time.Duration
 	Transferring bool // filter still thinks a transfer is in progress at the end
 	Quiet        bool // the world went quiescent (false: something was still running when the observation was taken)
@@ -461,6 +489,10 @@ func buildWorld(p wParams) *world {
 	}
 	must(os.MkdirAll(w.dstRoot, 0o755))
 	w.srcRoot, w.entries, w.tops = sharedTree(p.Tree)
+	if p.Local != nil && p.Local.Kind == "shrink" {
+		w.srcRoot = filepath.Join(w.root, "src")
+		writeTree(w.srcRoot, w.entries)
+	}
 	if p.DstPre != "" {
 		prepopNames = nil
 		for _, t := range w.tops {
@@ -504,17 +536,52 @@ func buildWorld(p wParams) *world {
 	if p.Protocol == 1 || p.Protocol == 3 {
 		actMitm = mitmActProtocol(p.Protocol)
 	}
+	msgFilter := func(dir string) func([]byte) []byte {
+		for _, f := range p.MsgFaults {
+			if f.Dir == dir && f.Kind == "silence" {
+				k, n := f.K, 0
+				return func(b []byte) []byte {
+					n++
+					if n > k {
+						return nil
+					}
+					return b
+				}
+			}
+		}
+		return nil
+	}
+	werr := func(dir string) func(int, []byte) error {
+		for _, f := range p.MsgFaults {
+			if f.Dir == dir && f.Kind == "werr" {
+				k := f.K
+				return func(i int, b []byte) error {
+					if i >= k {
+						return fmt.Errorf("write: connection reset by peer")
+					}
+					return nil
+				}
+			}
+		}
+		return nil
+	}
 	if p.Tunnel {
 		// with a tunnel the transfer's bytes travel over the connection nearest to the client
 		vs.OnDial = func(cli, srv *vs.Conn) {
 			if cli.Tag == "client" {
-				cli.OutPipe().Filter = chainFilters(actMitm, faultFilter(p.Faults, "c2s"))
-				srv.OutPipe().Filter = faultFilter(p.Faults, "s2c")
+				cli.OutPipe().Filter = chainFilters(actMitm, faultFilter(p.Faults, "c2s"), msgFilter("c2s"))
+				srv.OutPipe().Filter = chainFilters(faultFilter(p.Faults, "s2c"), msgFilter("s2c"))
+				cli.OutPipe().WriteErr, srv.OutPipe().WriteErr = werr("c2s"), werr("s2c")
+				cli.OutPipe().Cap, srv.OutPipe().Cap = p.WireCap, p.WireCap
 			}
 		}
 	} else {
-		w.c2s[0].Filter = chainFilters(actMitm, faultFilter(p.Faults, "c2s"))
-		w.s2c[0].Filter = faultFilter(p.Faults, "s2c")
+		w.c2s[0].Filter = chainFilters(actMitm, faultFilter(p.Faults, "c2s"), msgFilter("c2s"))
+		w.s2c[0].Filter = chainFilters(faultFilter(p.Faults, "s2c"), msgFilter("s2c"))
+		w.c2s[0].WriteErr, w.s2c[0].WriteErr = werr("c2s"), werr("s2c")
+	}
+	for i := range w.c2s {
+		w.c2s[i].Cap, w.s2c[i].Cap = p.WireCap, p.WireCap
 	}
 	for i := 0; i < p.Relays; i++ {
 		r := NewTrzszRelay(w.c2s[i], w.s2c[i], w.c2s[i+1], w.s2c[i+1], TrzszOptions{})
@@ -528,11 +595,35 @@ func buildWorld(p wParams) *world {
 	if cols == 0 {
 		cols = 100
 	}
+	vs.SetFlag("client", true)
 	vs.SetFlag("win", p.WinNL == "client")
 	if !p.RawClient {
 		w.filter = NewTrzszFilter(w.keys, w.term, w.c2s[0], w.s2c[0], TrzszOptions{TerminalColumns: cols})
 	}
 	vs.SetFlag("win", false)
+	vs.SetFlag("client", false)
+	if p.Local != nil {
+		lf, n := p.Local, 0
+		vs.HookFn = func(name string, args ...any) error {
+			if name != lf.Hook || (lf.Side == "client") != vs.Flag("client") {
+				return nil
+			}
+			n++
+			if n != lf.K {
+				return nil
+			}
+			if lf.Kind == "shrink" {
+				// the source file loses its tail on disk just before this read
+				for _, e := range w.entries {
+					if !e.Dir && len(e.Data) > 1 {
+						os.Truncate(filepath.Join(w.srcRoot, filepath.FromSlash(e.Path)), int64(len(e.Data)/3))
+					}
+				}
+				return nil
+			}
+			return fmt.Errorf("injected %s failure", name)
+		}
+	}
 	if p.Tunnel && w.filter != nil {
 		w.filter.SetTunnelConnector(func(port int) net.Conn { return dialOrNil(port, "client") })
 	}
@@ -715,6 +806,12 @@ func (w *world) prepareClient() {
 	res, err := w.filter.OneTimeUpload(paths)
 	must(err)
 	w.uploadRes = res
+	// the application reads the one-time upload result once
+	vs.GoDaemon("app-upload-result", func() {
+		if e, ok := <-vs.R(res); ok && e != nil {
+			w.uploadErr = e.Error()
+		}
+	})
 }
 
 func decodeLines(stream []byte, typ string) []string {
@@ -735,12 +832,13 @@ func decodeLines(stream []byte, typ string) []string {
 }
 
 func (w *world) result(s *vs.Sched) *worldResult {
-	r := &worldResult{Sched: s, SrvDone: w.srvDone, SrvDoneAt: w.srvDoneAt}
+	r := &worldResult{Sched: s, SrvDone: w.srvDone, SrvDoneAt: w.srvDoneAt, CliDone: w.cliDone, CliDoneAt: w.cliDoneAt}
 	if w.srvErr != nil {
 		r.SrvErr = w.srvErr.Error()
 	}
 	n := len(w.c2s) - 1
 	r.C2S, r.S2C = w.c2s[n].Written, w.s2c[n].Written
+	r.ClientGot = w.s2c[0].Written
 	b, _ := os.ReadFile(w.stdout.Name())
 	r.SrvStdout = string(b)
 	r.Term = string(w.term.Written)
@@ -749,6 +847,9 @@ func (w *world) result(s *vs.Sched) *worldResult {
 		if c.Name == "client.client" {
 			cliStreams = append(cliStreams, c.Sent())
 			r.TunC2S, r.TunS2C = c.Sent(), c.Received()
+			r.ClientGot = append(append([]byte(nil), r.ClientGot...), c.Received()...)
+			r.TunMsgsC2S, r.TunMsgsS2C = len(c.OutPipe().Log), len(c.InPipe().Log)
+			r.TunLogC2S = c.OutPipe().Log
 		}
 		if strings.HasSuffix(c.Name, ".server") && c.Tag == w.srvConnTag() {
 			srvStreams = append(srvStreams, c.Sent())
@@ -787,6 +888,7 @@ func (w *world) srvConnTag() string {
 
 func (w *world) cleanup() {
 	vs.OnDial = nil
+	vs.HookFn = nil
 	os.Stdout = realStdout
 	if w.p.Fork {
 		os.Stdin.Close()
@@ -822,6 +924,10 @@ func (w *world) expectedDst(rename map[string]string) map[string]string {
 
 // runWorld executes one transfer under the scheduler and returns what was observed.
 func runWorld(p wParams, cfg vs.Config, prefix, prefixN []int, extra func(w *world)) (*world, *worldResult) {
+	return runWorldWith(p, cfg, prefix, prefixN, extra)
+}
+
+func runWorldWith(p wParams, cfg vs.Config, prefix, prefixN []int, extra func(w *world)) (*world, *worldResult) {
 	var w *world
 	var res *worldResult
 	if cfg.MaxSteps == 0 {
@@ -843,6 +949,14 @@ func runWorld(p wParams, cfg vs.Config, prefix, prefixN []int, extra func(w *wor
 			extra(w)
 		}
 		w.startServer()
+		if w.filter != nil {
+			vs.GoDaemon("monitor", func() {
+				vs.WaitUntil("monitor.start", func() bool { return w.filter.IsTransferringFiles() || w.srvDone })
+				w.cliStartAt = vs.Elapsed()
+				vs.WaitUntil("monitor.end", func() bool { return !w.filter.IsTransferringFiles() })
+				w.cliDoneAt, w.cliDone = vs.Elapsed(), true
+			})
+		}
 		res0Quiet := vs.WaitSettled(func() bool {
 			if w.filter == nil {
 				return w.srvDone && w.rawDone
